@@ -112,6 +112,8 @@ class G:
         node['id'] = len(self.graph)
         if 'interval' in node and self.chance(0.15):
             node['interval_str'] = True        # spelled as a time string ('250ms')
+        elif 'interval' in node and float(node['interval']).is_integer() and self.chance(0.2):
+            node['interval_np'] = True         # a numpy integer
         self.graph.append(node)
         self.types[node['id']] = typ
         return node['id']
